@@ -28,6 +28,7 @@ from .parse import (
     StatusAtt,
 )
 from .throttle import check_allow, login_failed
+from .utils import imap_quote, resp_text
 
 # Allow circular imports for annotations
 #
@@ -272,7 +273,7 @@ class BaseClientHandler:
             )
             if self.server and imap_command.command:
                 self.server.num_failed_commands[imap_command.command] += 1
-            result = f"{imap_command.tag} NO {e}\r\n"
+            result = f"{imap_command.tag} NO {resp_text(e)}\r\n"
             await self.client.push(result)
             return
         except Bad as e:
@@ -281,7 +282,7 @@ class BaseClientHandler:
             )
             if self.server and imap_command.command:
                 self.server.num_failed_commands[imap_command.command] += 1
-            result = f"{imap_command.tag} BAD {e}\r\n"
+            result = f"{imap_command.tag} BAD {resp_text(e)}\r\n"
             await self.client.push(result)
             return
         except TimeoutError:
@@ -951,7 +952,7 @@ class Authenticated(BaseClientHandler):
             * LIST (\\HasChildren) "/" "projects" ("CHILDINFO" ("SUBSCRIBED"))
         """
         attrs_str = " ".join(sorted(attributes))
-        line = f'* LIST ({attrs_str}) "/" "{mbox_name}"'
+        line = f'* LIST ({attrs_str}) "/" {imap_quote(mbox_name)}'
         if child_info:
             criteria = " ".join(f'"{c}"' for c in sorted(child_info))
             line += f' ("CHILDINFO" ({criteria}))'
@@ -994,7 +995,7 @@ class Authenticated(BaseClientHandler):
                 case StatusAtt.UNSEEN:
                     result.append(f"UNSEEN {len(mbox.sequences['unseen'])}")
 
-        return f'* STATUS "{mbox_name}" ({" ".join(result)})\r\n'
+        return f'* STATUS {imap_quote(mbox_name)} ({" ".join(result)})\r\n'
 
     ####################################################################
     #
@@ -1114,7 +1115,9 @@ class Authenticated(BaseClientHandler):
 
             if lsub:
                 attrs_str = " ".join(sorted(attributes))
-                msg = f'* LSUB ({attrs_str}) "/" "{mbox_name}"\r\n'
+                msg = (
+                    f'* LSUB ({attrs_str}) "/" {imap_quote(mbox_name)}\r\n'
+                )
             else:
                 msg = self._fmt_list_response(mbox_name, attributes, child_info)
             await self.client.push(msg)
@@ -1178,7 +1181,8 @@ class Authenticated(BaseClientHandler):
                         result.append(f"UNSEEN {len(mbox.sequences['unseen'])}")
 
         await self.client.push(
-            f'* STATUS "{cmd.mailbox_name}" ({" ".join(result)})\r\n'
+            f"* STATUS {imap_quote(cmd.mailbox_name)} "
+            f'({" ".join(result)})\r\n'
         )
 
     ##################################################################
